@@ -57,7 +57,7 @@ def findPrecedingOrAncestorOrSelf (d : Doc) (c : NumCfg) (src : Nat) : Nat → O
   | 0, _ => none
   | _, none => none
   | f + 1, some pos =>
-    if c.fromMatches pos then none
+    if pos ≠ src ∧ c.fromMatches pos then none      -- `thePos != context`: only nodes before the context node
     else if c.countAt src pos then some pos
     else match d.prevSib pos with
       | none => findPrecedingOrAncestorOrSelf d c src f (d.parent pos)
@@ -69,35 +69,22 @@ def getTargetNode (d : Doc) (c : NumCfg) (src : Nat) : Option Nat :=
   | .any => findPrecedingOrAncestorOrSelf d c src (src + 1) (some src)
   | _ => findAncestor d c src (src + 1) (some src)
 
-/-- result of `getPreviousNode`: `nullDeref` = the compiled condition
-`0 != next && next is DOCUMENT || (0 != from && from->getMatchScore(next, …))` passed a null `next` to
-`getMatchScore` (happens exactly when `pos` has neither previous sibling nor parent and `from` is given) -/
-inductive PrevRes
-  | nullDeref
-  | ret (r : Option Nat)
-deriving Repr, DecidableEq
-
-def PrevRes.toOption : PrevRes → Option Nat
-  | .nullDeref => none
-  | .ret r => r
-
-/-- `getPreviousNode`, `level="any"` branch; `src` = the `pos` the function was entered with -/
-def prevAny (d : Doc) (c : NumCfg) (src : Nat) : Nat → Nat → PrevRes
-  | 0, _ => .ret none
+/-- `getPreviousNode`, `level="any"` branch; `src` = the `pos` the function was entered with.
+Each round: `next` = the parent when there is no previous sibling, else the previous sibling's lowest
+right-hand descendant; a null `next` ends the walk, a `next` matching `from` ends it with "no previous node"
+(every node walked over is tested), else `next` is returned if it matches `count`. -/
+def prevAny (d : Doc) (c : NumCfg) (src : Nat) : Nat → Nat → Option Nat
+  | 0, _ => none
   | f + 1, pos =>
-    match d.prevSib pos with
-    | none =>
-      match d.parent pos with
-      | none =>
-        -- next == 0: `0 != next && …` is false, the right operand of `||` is evaluated
-        if c.fromP.isSome then .nullDeref else .ret none      -- pos = next = 0 ends the while loop
-      | some next =>
-        if d.isDocNode next || c.fromMatches next then .ret none
-        else if c.countAt src next then .ret (some next)
-        else prevAny d c src f next
-    | some s =>
-      let next := d.deepestLast d.size s
-      if c.countAt src next then .ret (some next) else prevAny d c src f next
+    let next? : Option Nat := match d.prevSib pos with
+      | none => d.parent pos
+      | some s => some (d.deepestLast d.size s)
+    match next? with
+    | none => none
+    | some next =>
+      if c.fromMatches next then none
+      else if c.countAt src next then some next
+      else prevAny d c src f next
 
 /-- `getPreviousNode`, `single`/`multiple` branch -/
 def prevSibling (d : Doc) (c : NumCfg) (src : Nat) : Nat → Nat → Option Nat
@@ -108,10 +95,10 @@ def prevSibling (d : Doc) (c : NumCfg) (src : Nat) : Nat → Nat → Option Nat
     | some s => if c.countAt src s then some s else prevSibling d c src f s
 
 /-- `ElemNumber::getPreviousNode` -/
-def getPreviousNode (d : Doc) (c : NumCfg) (pos : Nat) : PrevRes :=
+def getPreviousNode (d : Doc) (c : NumCfg) (pos : Nat) : Option Nat :=
   match c.level with
   | .any => prevAny d c pos (pos + 1) pos
-  | _ => .ret (prevSibling d c pos (pos + 1) pos)
+  | _ => prevSibling d c pos (pos + 1) pos
 
 /-- `ElemNumber::getMatchingAncestors` (nodes in the order they are added: innermost first) -/
 def getMatchingAncestors (d : Doc) (c : NumCfg) (src : Nat) (stopAtFirstFound : Bool) :
@@ -119,7 +106,7 @@ def getMatchingAncestors (d : Doc) (c : NumCfg) (src : Nat) (stopAtFirstFound : 
   | 0, _ => []
   | _, none => []
   | f + 1, some node =>
-    if c.fromMatches node ∧ ¬ stopAtFirstFound then []
+    if node ≠ src ∧ c.fromMatches node then []        -- `node != theContextNode`; for single and multiple alike
     else if c.countAt src node then
       if stopAtFirstFound then [node]
       else node :: getMatchingAncestors d c src stopAtFirstFound f (d.parent node)
@@ -145,22 +132,10 @@ def countList (target prev : Nat → Option Nat) (after : Nat → Nat → Bool) 
 For `level="any"` a zero count produces no output (`if (theNumber != 0)`), i.e. the empty list. -/
 def getCountList (d : Doc) (c : NumCfg) (after : Nat → Nat → Bool) (cs : List Counter) (src : Nat) :
     List Counter × List Nat :=
-  let r := countList (getTargetNode d c) (fun n => (getPreviousNode d c n).toOption) after cs (countTargets d c src)
+  let r := countList (getTargetNode d c) (getPreviousNode d c) after cs (countTargets d c src)
   match c.level with
   | .any => (r.1, r.2.filter (· ≠ 0))
   | _ => r
-
-/-- does numbering `src` from an empty cache pass a null pointer to `getMatchScore`? -/
-def chainDerefsNull (d : Doc) (c : NumCfg) : Nat → Option Nat → Bool
-  | 0, _ => false
-  | _, none => false
-  | f + 1, some t =>
-    match getPreviousNode d c t with
-    | .nullDeref => true
-    | .ret r => chainDerefsNull d c f r
-
-def derefsNull (d : Doc) (c : NumCfg) (src : Nat) : Bool :=
-  (countTargets d c src).any fun n => chainDerefsNull d c (n + 1) (getTargetNode d c n)
 
 /-! ## Well-formedness of the navigation functions (checked by the driver on every document) -/
 
